@@ -409,6 +409,21 @@ def phase(case, ctx, rng, st, am, label, held, last):
                 j = int(np.argmax(np.abs(freq - law)))
                 ctx.violation("empirical-law", f"{what}: frequency of state {j} is {freq[j]:.4f}, kernel^k gives {law[j]:.4f} "
                               f"(Hoeffding eps {eps:.4f}, M={len(idx)})", tags=tags, witness=wit)
+    if last:
+        # two successive calls from the same start use fresh noise: under the k-step law the chance that BOTH calls return
+        # the very same 256 rows is c^256 with c = sum_v T^k(v0,v)^2; only judged when that is below 1e-12
+        v0i = int(rng.integers(0, N))
+        law1 = T_ref[v0i]
+        c_same = float(np.sum(law1 ** 2))
+        if 256 * math.log(max(c_same, 1e-300)) < math.log(1e-12):
+            init = torch.tensor(np.repeat(V[v0i:v0i + 1], 256, axis=0), dtype=torch.double)
+            ra = ctx.lib("sample", st.sample, 1, initial_state=init, tags=tags)
+            rb = ctx.lib("sample(again, same start)", st.sample, 1, initial_state=init, tags=tags)
+            ctx.count("successive_call_pairs_compared")
+            if torch.equal(ra, rb):
+                ctx.violation("successive-calls-replay-noise", f"two successive sample(1) calls from start state {V[v0i].astype(int).tolist()} "
+                              f"returned the same 256 rows (probability {c_same:.3f}^256 under the kernel): the second call replays the "
+                              "first call's noise, so chains continued across calls do not follow kernel^(k1+k2)", tags=tags, witness=wit)
     if gen.all_nonzero(am):
         ctx.mark_nontrivial(gen.model_digest(kind, am, None))
     ctx.seen("architectures", (kind, nv, nh, na))
